@@ -30,7 +30,7 @@ _orig_join = _th.Thread.join
 _orig_is_alive = _th.Thread.is_alive
 _RealSemaphore = _th.Semaphore
 
-EPOCH = 1_700_000_000.0
+EPOCH = 1000.0
 CUR = None            # the active Scheduler (one per process at a time)
 REPO_PREFIXES = ()    # set by install()
 
@@ -802,6 +802,8 @@ Timer = _factory(SimTimer, 'Timer')
 
 
 def v_sleep(d):
+    if d is not None and d < 0:
+        raise ValueError('sleep length must be non-negative')
     if CUR is not None and CUR.managed():
         CUR.sleep(d)
     else:
